@@ -5,3 +5,4 @@ CONSTANTS
   Types = {"hex", "bin"}
 INVARIANT Emit
 INVARIANT EmitCpu
+INVARIANT EmitLink
